@@ -285,7 +285,7 @@ def native_flags():
 
 
 def build_and_run_twin(unit, chk, inputs, workdir, native_slices=None, obligation=None):
-    """returns (status, output) status in {'confirmed','not-confirmed','build-failed','crash'}"""
+    """returns (status, output) status in {'confirmed','confirmed-other-clause','not-confirmed','build-failed','crash','twin-incomplete','run-failed'}"""
     os.makedirs(workdir, exist_ok=True)
     fl = native_flags()
     if not os.path.exists(os.path.join(vp.REPO, '_build', 'config.h')):
@@ -368,6 +368,10 @@ def build_and_run_twin(unit, chk, inputs, workdir, native_slices=None, obligatio
         return 'confirmed', text
     if rc == 0:
         return 'not-confirmed', text
+    if 'pc points to the zero page' in text:
+        # a call through an unresolved symbol: the twin is incomplete (linked with --unresolved-symbols=ignore-all),
+        # which says nothing about the real code
+        return 'twin-incomplete', text
     if 'AddressSanitizer' in text or 'runtime error:' in text or rc < 0 or 'Segmentation' in text:
         return 'crash', text
     return 'run-failed', text
